@@ -27,16 +27,17 @@ ASSUMPTIONS = [
     "the wrapped database itself does not fail (C04/C05 inject failing commit writes)",
 ]
 EXHAUSTIVE = {
-    "quick": "all action sequences of length <= 3 over 3 keys x {set a, set b, delete, read, in} x 4 "
+    "quick": "all action sequences of length <= 3 over 3 keys x {set a, set b'' (the empty value), delete, read, in} x 4 "
              "pre-contents x do_deletes {F,T} x every exit position",
     "thorough": "length <= 4 over 3 keys x 5 actions, and length <= 6 over 2 keys x {set, delete, read}, "
                 "x 4 pre-contents x do_deletes x every exit position",
 }
 FLOORS = {
     "quick": {"cases_commit": 5000, "cases_abort": 10000, "cases_abort_baseexception": 5000, "reads_checked": 20000,
-              "read_through_after_delete": 1000, "open_block_events": 20000},
+              "read_through_after_delete": 1000, "open_block_events": 20000, "reads_of_buffered_empty_value": 500},
     "thorough": {"cases_commit": 100000, "cases_abort": 300000, "cases_abort_baseexception": 100000, "reads_checked": 500000,
-                 "read_through_after_delete": 20000, "open_block_events": 500000},
+                 "read_through_after_delete": 20000, "open_block_events": 500000,
+                 "reads_of_buffered_empty_value": 5000},
 }
 
 KEYS = [b"k0", b"k1", b"k2"]
@@ -102,6 +103,8 @@ def run_case(case, ctx):
                             got = sdb[k]
                         except KeyError:
                             got = None
+                        if exp == b"":
+                            ctx.count("reads_of_buffered_empty_value")
                         if got != exp:
                             raise Violation("scratch-read", "read of %s inside the batch gave %r, model says %r "
                                             "(buffer %r)" % (k, got, exp, "deleted" if C.get(k) is DEL else C.get(k)))
@@ -200,7 +203,8 @@ def run_shard(ctx):
     mod = sys.modules[__name__]
     menu5 = []
     for k in ("k0", "k1", "k2"):
-        menu5 += [("set", k, "a"), ("set", k, "b"), ("del", k), ("get", k), ("in", k)]
+        # the second value is the EMPTY byte string: a legitimate value that is falsy
+        menu5 += [("set", k, "a"), ("set", k, ""), ("del", k), ("get", k), ("in", k)]
     n = 0
     for case in enumerate_cases(ctx, menu5, 3 if ctx.tier == "quick" else 4):
         if n == 500:
@@ -213,12 +217,13 @@ def run_shard(ctx):
         menu3 = []
         for k in ("k0", "k1"):
             menu3 += [("set", k, "a"), ("del", k), ("get", k)]
+        menu3 += [("set", "k0", "")]
         for case in enumerate_cases(ctx, menu3, 6):
             run_case_guarded(mod, case, ctx)
             if ctx.full:
                 return
     # random longer sequences, including copy()
-    menu = menu5 + [("copy", "k0")]
+    menu = menu5 + [("copy", "k0")] + [("set", k, "b") for k in ("k0", "k1", "k2")]
     for i in range(10000 if ctx.tier == "quick" else 60000):
         L = rnd.randint(4, 12)
         seq = [list(rnd.choice(menu)) for _ in range(L)]
